@@ -301,7 +301,7 @@ func runC14(c *Ctx) {
 
 	// ---------- R1 (c): file list ----------
 	if frl := c.P.Method("filterlist", "FileRuleList", "RetrieveRule"); frl != nil {
-		fc := ctxOf(frl)
+		_ = ctxOf(frl)
 		c.Fn(FuncName(frl))
 		usesShared := func(in ssa.Instruction) bool {
 			cl, ok := in.(*ssa.Call)
@@ -343,34 +343,56 @@ func runC14(c *Ctx) {
 			})
 			return n
 		}
-		var ops []ssa.Instruction
-		eachInstr(frl, func(_ *ssa.BasicBlock, in ssa.Instruction) {
-			if usesShared(in) {
-				ops = append(ops, in)
-				return
-			}
-			if cl, ok := in.(*ssa.Call); ok {
-				if cal := cl.Call.StaticCallee(); cal != nil && c.P.IsNewHelper(cal) {
-					for k := nestedUses(cal, 0); k > 0; k-- {
-						ops = append(ops, in)
+		// judge: the uses of the shared file/buffer in fn (those of helpers outside the vocabulary
+		// counted at their call sites) lie inside one hold of the mutex acquired in fn.  A helper
+		// that is such a critical section by itself counts as one self-contained hold.
+		var judge func(fn *ssa.Function, depth int) (int, string)
+		judge = func(fn *ssa.Function, depth int) (int, string) {
+			fcx := ctxOf(fn)
+			var ops []ssa.Instruction
+			selfHeld, selfOps := 0, 0
+			eachInstr(fn, func(_ *ssa.BasicBlock, in ssa.Instruction) {
+				if usesShared(in) {
+					ops = append(ops, in)
+					return
+				}
+				if cl, ok := in.(*ssa.Call); ok {
+					if cal := cl.Call.StaticCallee(); cal != nil && c.P.IsNewHelper(cal) && nestedUses(cal, 0) > 0 {
+						if depth < 3 {
+							if k, hb := judge(cal, depth+1); hb == "" && k >= 1 && heldAt(fn, fcx.locks, in, "Lock") == nil {
+								selfHeld++
+								selfOps += k
+								return
+							}
+						}
+						for k := nestedUses(cal, 0); k > 0; k-- {
+							ops = append(ops, in)
+						}
 					}
 				}
+			})
+			if selfHeld > 0 {
+				if selfHeld == 1 && len(ops) == 0 {
+					return selfOps, ""
+				}
+				return selfOps + len(ops), "Seek and the reads are protected by different acquisitions of the mutex: another retrieval can move the file position in between"
 			}
-		})
-		var hold *lockCall
-		bad := ""
-		for _, at := range ops {
-			l := heldAt(frl, fc.locks, at, "Lock")
-			if l == nil {
-				bad = c.P.Pos(at.Pos()) + ": the shared file/buffer is used outside the list mutex: two retrievals interleave Seek and Read and each parses the other's line (and caches it under the wrong index)"
-				break
+			var hold *lockCall
+			for _, at := range ops {
+				l := heldAt(fn, fcx.locks, at, "Lock")
+				if l == nil {
+					return len(ops), c.P.Pos(at.Pos()) + ": the shared file/buffer is used outside the list mutex: two retrievals interleave Seek and Read and each parses the other's line (and caches it under the wrong index)"
+				}
+				if hold == nil {
+					hold = l
+				} else if hold.in != l.in {
+					return len(ops), "Seek and the reads are protected by different acquisitions of the mutex: another retrieval can move the file position in between"
+				}
 			}
-			if hold == nil {
-				hold = l
-			} else if hold.in != l.in {
-				bad = "Seek and the reads are protected by different acquisitions of the mutex: another retrieval can move the file position in between"
-			}
+			return len(ops), ""
 		}
+		nOps, bad := judge(frl, 0)
+		ops := make([]struct{}, nOps)
 		if len(ops) < 2 && bad == "" {
 			bad = fmt.Sprintf("UNDECIDED: expected a Seek and a read of the shared file, found %d uses", len(ops))
 		}
@@ -535,14 +557,14 @@ func runC14(c *Ctx) {
 				for _, r := range *req.Referrers() {
 					switch x := r.(type) {
 					case *ssa.Defer:
-						if cal := x.Call.StaticCallee(); cal != nil && strings.Contains(calleeName(cal), ".Put") {
+						if cal := x.Call.StaticCallee(); isPoolPut(c.P, cal, 0) {
 							put, putDeferred = x, true
 							nPut++
 							continue
 						}
 						uses = append(uses, r)
 					case *ssa.Call:
-						if cal := x.Call.StaticCallee(); cal != nil && strings.Contains(calleeName(cal), "syncutil.Pool") && strings.Contains(calleeName(cal), ".Put") {
+						if cal := x.Call.StaticCallee(); isPoolPut(c.P, cal, 0) {
 							if putDeferred {
 								// a second release next to the deferred one
 								nPut++
@@ -579,12 +601,12 @@ func runC14(c *Ctx) {
 					var puts []ssa.Instruction
 					for _, r := range *req.Referrers() {
 						if x, ok := r.(*ssa.Call); ok {
-							if cal := x.Call.StaticCallee(); cal != nil && strings.Contains(calleeName(cal), "syncutil.Pool") && strings.Contains(calleeName(cal), ".Put") {
+							if cal := x.Call.StaticCallee(); isPoolPut(c.P, cal, 0) {
 								puts = append(puts, x)
 							}
 						}
 						if x, ok := r.(*ssa.Defer); ok {
-							if cal := x.Call.StaticCallee(); cal != nil && strings.Contains(calleeName(cal), ".Put") {
+							if cal := x.Call.StaticCallee(); isPoolPut(c.P, cal, 0) {
 								bad = c.P.Pos(x.Pos()) + ": the request is released by a deferred Put and by an explicit one"
 							}
 						}
@@ -675,4 +697,31 @@ func heldAtEveryCall(c *Ctx, fn *ssa.Function, depth int) bool {
 		})
 	}
 	return ok && n > 0
+}
+
+// isPoolPut: the pool's Put, or a helper outside the vocabulary that hands one
+// of its parameters to it (a release wrapper).
+func isPoolPut(p *Prog, cal *ssa.Function, depth int) bool {
+	if cal == nil || depth > 2 {
+		return false
+	}
+	if n := calleeName(cal); strings.Contains(n, "Pool") && strings.HasSuffix(strings.TrimSuffix(n, ")"), ".Put") || strings.HasSuffix(n, ".Put") {
+		return true
+	}
+	if !p.IsNewHelper(cal) {
+		return false
+	}
+	found := false
+	eachInstr(cal, func(_ *ssa.BasicBlock, in ssa.Instruction) {
+		ci, ok := in.(ssa.CallInstruction)
+		if !ok || !isPoolPut(p, ci.Common().StaticCallee(), depth+1) {
+			return
+		}
+		for _, a := range ci.Common().Args {
+			if _, isParam := a.(*ssa.Parameter); isParam {
+				found = true
+			}
+		}
+	})
+	return found
 }
